@@ -508,6 +508,7 @@ func main() {
 	sharedCache()
 	largeModule()
 	recompile()
+	hostCompiledClosed()
 	{
 		var ps []*Program
 		for i := 0; i < 12; i++ {
